@@ -52,6 +52,8 @@ func (d Damage) String() string {
 		return fmt.Sprintf("Content-Length announced as %d", d.Val)
 	case "zero":
 		return fmt.Sprintf("bytes from offset %d zeroed", d.At)
+	case "other-question":
+		return "a well-formed answer to another question (every archive, although one was asked for)"
 	case "forge":
 		return fmt.Sprintf("replaced by a forged file with archives (step, points) %v, contiguous offsets and an aligned base interval in each", d.Forge)
 	}
@@ -386,6 +388,17 @@ func c15Stored(e *Env, c *C15Case, base []byte) {
 			g.run("UpdatePointForArchive(best)", func() error {
 				return db.UpdatePointForArchive(wt.ArchiveIDBest, wt.Timestamp(now-1), 1.5, wt.Timestamp(now))
 			})
+			// single updates whose age lies around the real retention (a damaged
+			// maxRetention field claims more, or less, than the archives cover)
+			for _, age := range []int64{c.Layout.MaxRet() - 1, c.Layout.MaxRet() + 1, 2*c.Layout.MaxRet() + 1} {
+				age := age
+				if now-age <= 0 {
+					continue
+				}
+				g.run(fmt.Sprintf("UpdatePointForArchive(best, now-%d)", age), func() error {
+					return db.UpdatePointForArchive(wt.ArchiveIDBest, wt.Timestamp(now-age), 2.5, wt.Timestamp(now))
+				})
+			}
 			g.run("UpdatePointsForArchive(best)", func() error {
 				return db.UpdatePointsForArchive([]wt.Point{{Time: wt.Timestamp(now - 3), Value: 1}, {Time: wt.Timestamp(now - 2), Value: 2}, {Time: wt.Timestamp(now), Value: 3}}, wt.ArchiveIDBest, wt.Timestamp(now))
 			})
@@ -499,6 +512,7 @@ func c15Wire(e *Env, c *C15Case) {
 	wire := []int64{hdr, hdr + 4, hdr + 8}
 	list := damages(rng, bodyLen, hdr, wire)
 	// a server that lies about the length of its answer
+	list = append(list, Damage{Kind: "other-question"})
 	list = append(list, Damage{Kind: "lie-length", Val: 256 << 20}, Damage{Kind: "lie-length", Val: 1 << 62}, Damage{Kind: "lie-length", Val: uint64(bodyLen) + 1})
 	if c.Only != nil {
 		list = []Damage{*c.Only}
